@@ -314,7 +314,8 @@ class NetAddr():
             if isinstance(val, str):
                 res += self._strpad4(len(val.encode('utf-8')))
             elif isinstance(val, (bytes, bytearray, memoryview)):
-                res += 4 + len(val) + (-len(val) & 3)  # Blob size bytes + pad.
+                size = memoryview(val).nbytes
+                res += 4 + size + (-size & 3)  # Blob size bytes + pad.
             elif isinstance(val, list):
                 # Arrays are messages or bundles converted to blobs.
                 if not val:
